@@ -129,7 +129,8 @@ pub fn run(ctx: &Ctx) -> Report {
         }
         let with_shx = field(line, "shx") == Some("true");
         let typed: i32 = field(line, "typed").and_then(|v| v.parse().ok()).unwrap_or(-1);
-        let shp = std::fs::read(format!("{}/{}.shp", dir, name)).expect("harness: read shp");
+        let ext = field(line, "ext").unwrap_or("shp").to_string();
+        let shp = std::fs::read(format!("{}/{}.{}", dir, name, ext)).expect("harness: read shp");
         let shx = if with_shx { Some(std::fs::read(format!("{}/{}.shx", dir, name)).expect("harness: read shx")) } else { None };
         let cap = shp.len() / 8 + 4;
         rep.eval();
@@ -222,9 +223,10 @@ pub fn run(ctx: &Ctx) -> Report {
                 }
                 // the same through the path-based constructor when the .shx sits next to the .shp
                 if !cfg!(miri) {
-                    let path = format!("{}/{}.shp", dir, name);
-                    if let Ok(mut rd) = ShapeReader::from_path(&path) {
-                        o.push(("path_iter_idx", items(rd.iter_shapes(), cap)));
+                    let path = format!("{}/{}.{}", dir, name, ext);
+                    match ShapeReader::from_path(&path) {
+                        Ok(mut rd) => o.push(("path_iter_idx", items(rd.iter_shapes(), cap))),
+                        Err(e) => o.push(("path_iter_idx", J::Arr(vec![J::obj(vec![("err", J::s(format!("open: {}", err_class(&e))))])]))),
                     }
                 }
             }
